@@ -7,8 +7,8 @@ LEVEL = "fault_enumeration"
 PROP = "C08"
 PROPS_FILE = "C08.v"
 BACKENDS = [("inplace", [0]), ("ir", [0, 2, 3]), ("bc", [0, 2]), ("jit", [0, 2])]
-COUNTS_QUICK = {"uniform": 120, "macro": 60, "affine": 50, "pressure": 15, "roam": 15}
-COUNTS_THOROUGH = {"uniform": 2500, "macro": 1200, "affine": 800, "pressure": 200, "roam": 200}
+COUNTS_QUICK = {"iopressure": 120, "uniform": 120, "macro": 60, "affine": 50, "pressure": 15, "roam": 15}
+COUNTS_THOROUGH = {"iopressure": 3000, "uniform": 2500, "macro": 1200, "affine": 800, "pressure": 200, "roam": 200}
 
 
 def fault_envs(case, max_pos):
